@@ -13,16 +13,19 @@ if [ -n "$src" ] && [ -d "$src" ]; then
 fi
 W=/dev/shm/seed-$id-$$
 git -C /repo worktree add -q --detach "$W" HEAD || exit 2
-trap 'git -C /repo worktree remove --force "$W" >/dev/null 2>&1; rm -rf /dev/shm/seed-ev-$$' EXIT
-applies=yes; git -C "$W" apply "$D/patch.diff" || applies=no
+trap 'git -C /repo worktree remove --force "$W" >/dev/null 2>&1; rm -rf /dev/shm/seed-ev-$$ /dev/shm/seed-patch-$$.diff' EXIT
+applies=yes; git -C "$W" apply "$D/patch.diff" 2>/dev/null || { git -C "$W" apply -3 "$D/patch.diff" >/dev/null 2>&1 && git -C "$W" reset -q; } || applies=no
+# (a later fix: commit can shift the context of an older patch: the 3-way fallback re-bases it; the
+# re-based form is what the rest of this script applies and reverts)
+git -C "$W" diff > /dev/shm/seed-patch-$$.diff; P=/dev/shm/seed-patch-$$.diff
 compiles=no; (cd "$W" && go build ./... >/dev/null 2>&1) && compiles=yes
 basefail=$(cd "$W" && go test -vet=off -count=1 ./... 2>&1 | grep -c "^FAIL\|^--- FAIL")
 # demo with the change
 cp -r "$D/demo/." "$W/" 2>/dev/null
 demo_with=$(cd "$W" && go test -vet=off -count=1 -run 'ZZ|Demo|zz' ./... 2>&1 | grep -c "^--- FAIL\|^FAIL")
-git -C "$W" apply -R "$D/patch.diff"
+git -C "$W" apply -R "$P"
 demo_without=$(cd "$W" && go test -vet=off -count=1 -run 'ZZ|Demo|zz' ./... 2>&1 | grep -c "^--- FAIL\|^FAIL")
-git -C "$W" apply "$D/patch.diff"
+git -C "$W" apply "$P"
 (cd "$W" && git ls-files --others --exclude-standard | xargs -r rm -f)
 results=""
 for c in $checks; do
